@@ -50,6 +50,8 @@ pub struct Observer {
     pub honest: Vec<bool>,
     pub n: usize,
     pub blocks: HashMap<Digest, BlockRec>,
+    /// Every distinct content seen under one digest (the digest does not bind signature, QC votes, TC).
+    pub variants: HashMap<Digest, Vec<Block>>,
     pub nodes: Vec<NodeObs>,
     pub violations: Vec<Violation>,
     pub probes: BTreeMap<String, u64>,
@@ -100,6 +102,7 @@ impl Observer {
             honest,
             n,
             blocks: HashMap::new(),
+            variants: HashMap::new(),
             nodes: (0..n).map(|_| NodeObs::default()).collect(),
             violations: Vec::new(),
             probes: BTreeMap::new(),
@@ -151,6 +154,13 @@ impl Observer {
     /// Enter a block into the global table (from any source that shows its full content).
     pub fn learn_block(&mut self, b: &Block, seq: u64) -> Digest {
         let d = ident::block_digest(b);
+        {
+            let cid = ident::content_id(b);
+            let v = self.variants.entry(d.clone()).or_default();
+            if v.len() < 16 && !v.iter().any(|x| ident::content_id(x) == cid) {
+                v.push(b.clone());
+            }
+        }
         // The digest does not bind the signature, the QC's votes or the TC: several variants may
         // share it. Keep the first one, but prefer a fully valid variant once one shows up.
         let replace = match self.blocks.get(&d) {
